@@ -218,7 +218,9 @@ void Blocks::split(Block *b, Block *&l, Block *&r, Constraint *c) {
     f<<"Split left: "<<*l<<endl;
     f<<"Split right: "<<*r<<endl;
 #endif
-    r->posn = b->posn;
+    // Keep r where b was.  Block positions are expressed in the scale of the
+    // block's first variable, which may differ between b and r.
+    r->posn = b->posn * b->ps.scale / r->ps.scale;
     //COLA_ASSERT(r->weight!=0);
     //r->wposn = r->posn * r->weight;
     mergeLeft(l);
